@@ -76,13 +76,6 @@ Definition apply_op (x : list R) (o : pose_op) : list R :=
   | OpInv => evl x SE3_inv
   | OpBox d => SE3_boxplus_fun x d
   end.
-Lemma SE3_boxplus_len s d : length s = 7%nat -> length d = 6%nat -> length (SE3_boxplus_fun s d) = 7%nat.
-Proof.
-  intros Hs Hd.
-  destruct (Rle_dec ((nth 3 d 0)^2 + (nth 4 d 0)^2 + (nth 5 d 0)^2) 1) as [Hle|Hgt].
-  - rewrite SE3_boxplus_small_taken; auto.
-  - rewrite SE3_boxplus_large_taken; auto. lra.
-Qed.
 Lemma apply_op_inv x o : length x = 7%nat -> qn2 x = 1 -> op_ok o ->
   length (apply_op x o) = 7%nat /\ qn2 (apply_op x o) = 1.
 Proof.
